@@ -733,6 +733,8 @@ fn create_parent_dirs(
 /// error.
 fn remove_old_file(disk_path: &Path) -> Result<bool, CheckoutError> {
     reject_reserved_existing_path(disk_path)?;
+    #[cfg(feature = "verif-hooks")]
+    crate::verif_hooks::crash_point("wc.before_remove_old_file");
     match fs::remove_file(disk_path) {
         Ok(()) => Ok(true),
         Err(err) if err.kind() == io::ErrorKind::NotFound => Ok(false),
@@ -2057,6 +2059,8 @@ impl TreeState {
         exec_bit: ExecBit,
         apply_eol_conversion: bool,
     ) -> Result<FileState, CheckoutError> {
+        #[cfg(feature = "verif-hooks")]
+        crate::verif_hooks::crash_point("wc.before_write_file");
         let mut file = File::options()
             .write(true)
             .create_new(true) // Don't overwrite un-ignored file. Don't follow symlink.
@@ -2085,6 +2089,8 @@ impl TreeState {
                 ),
                 err: err.into(),
             })?;
+        #[cfg(feature = "verif-hooks")]
+        crate::verif_hooks::crash_point("wc.write_file.after_content");
         set_executable(exec_bit, disk_path)
             .map_err(|err| checkout_error_for_stat_error(err, disk_path))?;
         // Read the file state from the file descriptor. That way, know that the file
@@ -2099,6 +2105,8 @@ impl TreeState {
     }
 
     fn write_symlink(&self, disk_path: &Path, target: String) -> Result<FileState, CheckoutError> {
+        #[cfg(feature = "verif-hooks")]
+        crate::verif_hooks::crash_point("wc.before_write_symlink");
         let target = symlink_target_convert_to_disk(&target);
 
         if cfg!(windows) {
@@ -2141,6 +2149,8 @@ impl TreeState {
         contents: &[u8],
         exec_bit: ExecBit,
     ) -> Result<FileState, CheckoutError> {
+        #[cfg(feature = "verif-hooks")]
+        crate::verif_hooks::crash_point("wc.before_write_conflict");
         let contents = self
             .target_eol_strategy
             .convert_eol_for_update(contents)
